@@ -29,17 +29,19 @@ func init() {
 		ID:    "C09",
 		Level: "exploration",
 		Rule: "programs routing quoted literals, macro arguments, &rest lists, their cdr/rest/slice views and EXPANSIONS handed back as data (macroexpand / macroexpand-1 of quoted call forms of macros that return an argument form, a part of it, their &rest/&optional/&key parameter, a quasiquote around it or a literal of their own body) into every in-place or capacity-sensitive builtin, and macros whose body applies such a builtin to its argument form (value sources x mutator table x program shapes) plus generated programs; each Program is parsed once and loaded (a) k times in one runtime against a twin that re-parses every time, (b) in fresh runtimes, (c) concurrently from G in {2,8,32} goroutines with private, differently configured runtimes under GOMAXPROCS {2,16} in the race-detector build; " +
-			"the Program's structural snapshot (pointer, type, fields, quoting, seal, source, len/cap, children) and SealedASTFingerprint must be unchanged; (d) the sequential phase is repeated in the -tags elpscheck build. distinct_nontrivial counts distinct (shape, mutator, value source, loads, goroutines, GOMAXPROCS) configurations and generated-program feature signatures",
+			"the Program's structural snapshot (pointer, type, fields, quoting, seal, source, len/cap, children) and SealedASTFingerprint must be unchanged; (d) the sequential phase is repeated in the -tags elpscheck build. " +
+			"Library family: every function / operator / macro of the runtime's registry x every parameter receives a value obtained from program text (8 shapes, 23 spellings); the other arguments are discovered in a scratch runtime on fresh values (general pool + docstring spellings; in-place writers first); the result goes through a macro expansion and is changed in place; Programs of 3 parameters each through (a)-(d); values reachable from one call's results in two runtimes (process-wide nodes) must never change. Host family: the value LoadProgram returns handed back to FunCall/FunCallContext as argument list / one argument of functions with every formals kind x every mutator. " +
+			"distinct_nontrivial counts distinct (shape, mutator, value source, loads, goroutines, GOMAXPROCS) configurations, generated-program feature signatures, (function@parameter, shape, scratch class) fragments and (host class, entry point, mutator) calls",
 		Assumptions: []string{
 			"a race needs both accesses executed: the race detector sees exactly what the workload performs",
 			"writes that store the value already present are invisible to the snapshot (visible to the race detector only)",
 		},
-		Cases:         func(tier string) int { return pick(tier, 2000, 30000) },
+		Cases:         func(tier string) int { return c09BaseCases(tier) + c09LibCases(tier) + c09HostCases(tier) },
 		Run:           c09Run,
 		Binary:        "race",
 		Aux:           c09Aux,
 		Driver:        c09Driver,
-		MinDistinct:   func(tier string) int { return pick(tier, 300, 1000) },
+		MinDistinct:   func(tier string) int { return pick(tier, 1200, 4000) },
 		WorkerTimeout: func(tier string) time.Duration { return time.Duration(pick(tier, 20, 120)) * time.Minute },
 	})
 }
@@ -368,30 +370,54 @@ func c09LimitBound(val string) bool {
 }
 
 func c09Run(w *fw.W, idx int) {
+	if base := c09BaseCases(w.Tier); idx >= base {
+		// the cases behind the template / generated list: calls of everything the
+		// registry holds (c09_lib.go); appended, so that the indexes before them mean
+		// what they always meant
+		if j := idx - base; j < c09LibCases(w.Tier) {
+			c09LibRun(w, idx, j)
+		} else {
+			// and behind those: the host hands values of the Program back (c09_host.go)
+			c09HostRun(w, idx, j-c09LibCases(w.Tier))
+		}
+		return
+	}
 	src, label, _, feats := c09Source(w, idx)
+	c09Check(w, idx, src, label, feats, nil, w.Violation)
+}
+
+// c09BaseCases: the length of the template / generated-program case list of the tier.
+func c09BaseCases(tier string) int { return pick(tier, 2000, 30000) }
+
+// c09Check parses src ONCE and puts the Program through the load phases (a)-(c) and
+// their oracles.  stable (optional) reads the program's own report of literal
+// stability out of the fresh-parse result ("" = stable); report receives every
+// violation (the library family collects them first and attributes them to one call).
+// The result tells whether the Program came through clean.
+func c09Check(w *fw.W, idx int, src, label string, feats map[string]bool, stable func(val string) string, report func(key, summary, detail string)) bool {
 	w.Logf("source:\n%s", src)
 	parser := rt.New(rt.Opts{})
 	prog, err := parser.Env.ParseProgram("c09", "c09.lisp", strings.NewReader(src))
 	if err != nil {
-		w.Violation("harness-parse-error", err.Error(), src)
-		return
+		report("harness-parse-error", err.Error(), src)
+		return false
 	}
 	roots := lisp.VerifProgramExprs(prog)
 	before := c09Snapshot(roots)
 	fpBefore := lisp.SealedASTFingerprint(roots)
 	for _, n := range before {
 		if !n.sealed {
-			w.Violation("program-node-not-sealed", fmt.Sprintf("a node of a parsed Program is not sealed: %v %q", n.typ, n.str), src)
-			return
+			report("program-node-not-sealed", fmt.Sprintf("a node of a parsed Program is not sealed: %v %q", n.typ, n.str), src)
+			return false
 		}
 	}
 	check := func(phase string) bool {
 		if d := c09Compare(before, c09Snapshot(roots)); d != "" {
-			w.Violation("program-mutated:"+c09Label(label), "evaluating a parsed Program changed it ("+phase+"): "+d, src)
+			report("program-mutated:"+c09Label(label), "evaluating a parsed Program changed it ("+phase+"): "+d, src)
 			return false
 		}
 		if fp := lisp.SealedASTFingerprint(roots); fp != fpBefore {
-			w.Violation("program-fingerprint-changed:"+c09Label(label), fmt.Sprintf("%s: %x -> %x", phase, fpBefore, fp), src)
+			report("program-fingerprint-changed:"+c09Label(label), fmt.Sprintf("%s: %x -> %x", phase, fpBefore, fp), src)
 			return false
 		}
 		return true
@@ -399,6 +425,10 @@ func c09Run(w *fw.W, idx int) {
 
 	// (a) k loads in one runtime vs a twin that re-parses each time
 	k := []int{2, 5}[idx%2]
+	lib := strings.HasPrefix(label, "lib|")
+	if lib && k > 3 {
+		k = 3 // the library family's Programs are long (a fragment per call) and its cases many
+	}
 	twin := rt.New(c09Opts(0))
 	main := rt.New(c09Opts(0))
 	ref := make([]c09Res, k)
@@ -407,25 +437,33 @@ func c09Run(w *fw.W, idx int) {
 		got := c09Load(main, func() *lisp.LVal { return main.Env.LoadProgram(prog) })
 		w.Eval(2)
 		if got != ref[i] {
-			w.Violation("reload-differs:"+c09Label(label), fmt.Sprintf("load #%d of the same Program in one runtime differs from a fresh parse: %s vs %s", i+1, trunc(got.val, 300), trunc(ref[i].val, 300)), src)
-			return
+			report("reload-differs:"+c09Label(label), fmt.Sprintf("load #%d of the same Program in one runtime differs from a fresh parse: %s vs %s", i+1, trunc(got.val, 300), trunc(ref[i].val, 300)), src)
+			return false
 		}
 		if !check(fmt.Sprintf("after load #%d in one runtime", i+1)) {
-			return
+			return false
 		}
 	}
+	w.Logf("fresh-parse result of load #1: %s", ref[0].val)
 	// literal stability as reported by the program itself
 	if (strings.HasPrefix(label, "shape0") || strings.HasPrefix(label, "shape4")) && !strings.HasSuffix(ref[0].val, " true)") && !strings.Contains(ref[0].val, "error") && !strings.HasPrefix(ref[0].val, "c09") {
 		what := "a quoted literal (or the expansion of a quoted macro call) evaluated to a different value after values obtained from it were mutated: "
 		if strings.HasPrefix(label, "shape4") {
 			what = "a quoted macro call form / the value of the macro call changed after the macro's body applied a builtin to its argument form: "
 		}
-		w.Violation("literal-changed:"+c09Label(label), what+trunc(ref[0].val, 300), src)
-		return
+		report("literal-changed:"+c09Label(label), what+trunc(ref[0].val, 300), src)
+		return false
 	}
 	if strings.HasPrefix(label, "shape1") && strings.HasSuffix(ref[0].val, " false)") {
-		w.Violation("literal-changed:"+c09Label(label), "a quoted literal in a loop body evaluated to different values: "+trunc(ref[0].val, 300), src)
-		return
+		report("literal-changed:"+c09Label(label), "a quoted literal in a loop body evaluated to different values: "+trunc(ref[0].val, 300), src)
+		return false
+	}
+
+	if stable != nil {
+		if bad := stable(ref[0].val); bad != "" {
+			report("literal-changed:"+c09Label(label), bad, src)
+			return false
+		}
 	}
 
 	// The runtimes below are configured with different limits to expose
@@ -453,20 +491,23 @@ func c09Run(w *fw.W, idx int) {
 		got := c09Load(fr, func() *lisp.LVal { return fr.Env.LoadProgram(prog) })
 		w.Eval(1)
 		if got != ref[0] {
-			w.Violation("fresh-runtime-load-differs:"+c09Label(label), fmt.Sprintf("loading the Program in a fresh runtime differs from a fresh parse: %s vs %s", trunc(got.val, 300), trunc(ref[0].val, 300)), src)
-			return
+			report("fresh-runtime-load-differs:"+c09Label(label), fmt.Sprintf("loading the Program in a fresh runtime differs from a fresh parse: %s vs %s", trunc(got.val, 300), trunc(ref[0].val, 300)), src)
+			return false
 		}
 	}
 	if !check("after loads in fresh runtimes") {
-		return
+		return false
 	}
 	if byAfter := c09SymbolDump(bystander); byAfter != byBefore {
-		w.Violation("runtimes-not-isolated", "a bystander runtime's packages/bindings changed while other runtimes evaluated", src+"\n"+byBefore+"\n=>\n"+byAfter)
-		return
+		report("runtimes-not-isolated", "a bystander runtime's packages/bindings changed while other runtimes evaluated", src+"\n"+byBefore+"\n=>\n"+byAfter)
+		return false
 	}
 
 	// (c) concurrently, every goroutine with its own runtime
 	G := []int{2, 8, 32}[idx%3]
+	if lib && G > 2 {
+		G = 4
+	}
 	procs := []int{2, 16}[(idx/3)%2]
 	R := 2
 	old := runtime.GOMAXPROCS(procs)
@@ -492,12 +533,12 @@ func c09Run(w *fw.W, idx int) {
 	w.Count("concurrent_loads", int64(G*R))
 	for _, e := range errs {
 		if e != "" {
-			w.Violation("concurrent-load-differs:"+c09Label(label), "a concurrent load of the shared Program differs from a fresh parse: "+e, src)
-			return
+			report("concurrent-load-differs:"+c09Label(label), "a concurrent load of the shared Program differs from a fresh parse: "+e, src)
+			return false
 		}
 	}
 	if !check("after concurrent loads") {
-		return
+		return false
 	}
 	w.Count("snapshot_nodes_checked", int64(len(before)*(k+2)))
 	w.SetAdd("interleaving_configs", fmt.Sprintf("G=%d GOMAXPROCS=%d R=%d", G, procs, R))
@@ -511,12 +552,16 @@ func c09Run(w *fw.W, idx int) {
 	if w.WantSample() && feats == nil {
 		w.Sample(map[string]any{"label": label, "source": src, "result": ref[0].val, "loads_in_one_runtime": k, "goroutines": G, "gomaxprocs": procs})
 	}
+	return true
 }
 
 func c09Label(l string) string {
 	// shapeN|mutator|literal -> shapeN|mutator (the literal is not part of the finding key)
 	// for a named value source (expansion of a macro call, macro body) the source is part of it
 	p := strings.Split(l, "|")
+	if p[0] == "lib" {
+		return l // lib|package:function@parameter|shape of the value: all of it is the class
+	}
 	if len(p) >= 3 && (strings.HasPrefix(p[2], "mx-") || strings.HasPrefix(p[2], "macro-body-")) {
 		return p[0] + "|" + p[1] + "|" + p[2]
 	}
@@ -545,12 +590,29 @@ func c09SymbolDump(r *rt.R) string {
 // --- checked build (-tags elpscheck): sequential phase only ------------------------------
 
 func c09Aux(args []string) int {
+	if args[0] == "libdump" {
+		c09LibDump()
+		return 0
+	}
 	n, _ := strconv.Atoi(args[0])
+	nlib := 0
+	if len(args) > 1 {
+		nlib, _ = strconv.Atoi(args[1])
+	}
 	seed, _ := strconv.ParseInt(os.Getenv("VERIF_SEED"), 10, 64)
 	if seed == 0 {
 		seed = 1
 	}
 	w := &fw.W{Rec: fw.NewRecForAux(), Prop: fw.Lookup("C09"), Tier: "quick", Seed: seed, NShards: 1}
+	// nlib cases of the library family, spread over one pass: discovery and the loads
+	// run under the checked build's inspectors (c09Check reports into the void here:
+	// only an inspector abort counts in this phase)
+	per := c09LibCasesPerPass()
+	for i := 0; i < nlib && i < per; i++ {
+		j := i * per / nlib
+		fmt.Fprintf(os.Stderr, "library case %d\n", j)
+		c09LibRun(w, c09BaseCases("quick")+j, j)
+	}
 	for idx := 0; idx < n; idx++ {
 		src, _, _, _ := c09Source(w, idx)
 		fmt.Fprintf(os.Stderr, "case %d\n", idx)
@@ -572,7 +634,8 @@ func c09Aux(args []string) int {
 
 func c09Driver(d *fw.D) {
 	n := pick(d.Tier, 400, 8000)
-	out, err := d.RunAux("elpscheck", nil, 30*time.Minute, strconv.Itoa(n))
+	nlib := pick(d.Tier, 16, c09LibCasesPerPass())
+	out, err := d.RunAux("elpscheck", nil, 30*time.Minute, strconv.Itoa(n), strconv.Itoa(nlib))
 	if err != nil {
 		d.Violation("elpscheck-inspector-fired", "the repository's checked build (-tags elpscheck) aborted: seal/ownership/singleton inspector or crash", err.Error())
 		return
@@ -583,4 +646,26 @@ func c09Driver(d *fw.D) {
 	}
 	d.Eval(n * 4)
 	d.Count("elpscheck_loads", int64(n*4))
+	d.Count("elpscheck_library_cases", int64(nlib))
+	// the library family must have been there: every (function, position) pair of the
+	// registry visited in every pass, and calls actually made on program literals
+	cat := c09LibCatalogueGet()
+	want := int64(len(cat.pos) * c09LibPasses(d.Tier))
+	d.Count("lib_registry_functions", int64(len(cat.fns)))
+	d.Count("lib_registry_positions", int64(len(cat.pos)))
+	for why, k := range cat.skipped {
+		d.Count("lib_registry_entries_without_position:"+why, int64(k))
+	}
+	if got := d.Counters["lib_positions_visited"]; got < want {
+		d.Inconclusive(fmt.Sprintf("library family: %d of %d (function, position) visits made", got, want))
+	}
+	if got, floor := d.Counters["lib_fragments"], want*2; got < floor {
+		d.Inconclusive(fmt.Sprintf("library family: %d calls on program literals checked < %d", got, floor))
+	}
+	if got, floor := d.Counters["host_calls_with_program_values"], int64(c09HostCases(d.Tier)*4); got < floor {
+		d.Inconclusive(fmt.Sprintf("host family: %d host calls with values of the Program < %d", got, floor))
+	}
+	if d.Counters["lib_fragments_accepted"]+d.Counters["lib_fragments_inplace"]+d.Counters["lib_fragments_deep"] < want/2 {
+		d.Inconclusive("library family: hardly any call was accepted by the function it went to (discovery found no argument tuples)")
+	}
 }
